@@ -6,10 +6,14 @@
 package main
 
 import (
+	"encoding/json"
 	"fmt"
 	"os"
 	"regexp"
+	"runtime/pprof"
+	"sort"
 	"strings"
+	"time"
 	"unicode"
 
 	"github.com/glycerine/zygomys/v9/zygo"
@@ -41,16 +45,19 @@ type op struct {
 	path  []string
 	z     int64
 	args  []int64
+	tmp   string // fresh variable of the rhs routes (not part of the model input)
 }
+
+var tmpCounter int
 
 func dI(z int64) *decl { return &decl{kind: 'I', z: z} }
 func dF(params []string, b body) *decl {
 	return &decl{kind: 'F', params: params, body: b}
 }
-func dH(kvs ...member) *decl             { return &decl{kind: 'H', kvs: kvs} }
-func dP(pn string, ms ...member) *decl   { return &decl{kind: 'P', pname: pn, kvs: ms} }
-func dR(path ...string) *decl            { return &decl{kind: 'R', path: path} }
-func m(name string, d *decl) member      { return member{name, d} }
+func dH(kvs ...member) *decl           { return &decl{kind: 'H', kvs: kvs} }
+func dP(pn string, ms ...member) *decl { return &decl{kind: 'P', pname: pn, kvs: ms} }
+func dR(path ...string) *decl          { return &decl{kind: 'R', path: path} }
+func m(name string, d *decl) member    { return member{name, d} }
 func names(b *strings.Builder, p []string) {
 	fmt.Fprintf(b, " %d", len(p))
 	for _, s := range p {
@@ -168,9 +175,9 @@ func (o op) src() []string {
 	case 'g':
 		switch o.route {
 		case "rhsdef":
-			return []string{"(def zq " + p + ")", "zq"}
+			return []string{"(def " + o.tmp + " " + p + ")", o.tmp}
 		case "rhsinfix":
-			return []string{"{zq = " + p + "}", "zq"}
+			return []string{"{" + o.tmp + " = " + p + "}", o.tmp}
 		case "let":
 			return []string{"(let [tq " + p + "] tq)"}
 		case "plus":
@@ -274,15 +281,32 @@ func evalOp(env *zygo.Zlisp, o op) string {
 
 // ---------- a case ----------
 type world struct {
-	defs []member
+	defs     []member
+	key      string
+	srcCache []string
+	declared bool
 }
 
+var worldCounter int
+
 func (w *world) src() []string {
-	var out []string
-	for _, d := range w.defs {
-		out = append(out, stmt(d.name, d.d))
+	if w.srcCache == nil {
+		for _, d := range w.defs {
+			w.srcCache = append(w.srcCache, stmt(d.name, d.d))
+		}
 	}
-	return out
+	return w.srcCache
+}
+
+// the world line precedes the first case that uses the world
+func (w *world) declare(out *lib.Out) {
+	if w.declared {
+		return
+	}
+	worldCounter++
+	w.key = fmt.Sprintf("w%d", worldCounter)
+	w.declared = true
+	out.Case(encodeWorld(w), "WORLD", false, "world")
 }
 
 func (w *world) build() (*zygo.Zlisp, string) {
@@ -330,40 +354,52 @@ func firstRunes(w *world, ops []op, set map[rune]bool) {
 	}
 }
 
-func encode(w *world, ops []op) string {
-	var b strings.Builder
-	set := map[rune]bool{}
-	firstRunes(w, ops, set)
+func upperTokens(set map[rune]bool) string {
 	var ups []int
 	for r := range set {
 		if unicode.IsUpper(r) {
 			ups = append(ups, int(r))
 		}
 	}
-	// sort (map order must not leak)
-	for i := range ups {
-		for j := i + 1; j < len(ups); j++ {
-			if ups[j] < ups[i] {
-				ups[i], ups[j] = ups[j], ups[i]
-			}
-		}
-	}
+	sort.Ints(ups) // map order must not leak
+	var b strings.Builder
 	fmt.Fprintf(&b, "U %d", len(ups))
 	for _, u := range ups {
 		fmt.Fprintf(&b, " %d", u)
 	}
+	return b.String()
+}
+
+// world line:  "D key U.. W.. ## source"; op line: "X key U.. O.. ## source" (key names a world line)
+func encodeWorld(w *world) string {
+	var b strings.Builder
+	set := map[rune]bool{}
+	firstRunes(w, nil, set)
+	b.WriteString("D " + w.key + " " + upperTokens(set))
 	fmt.Fprintf(&b, " W %d", len(w.defs))
 	for _, d := range w.defs {
 		b.WriteString(" " + d.name)
 		d.d.enc(&b)
 	}
+	b.WriteString(" ## " + strings.Join(w.src(), " ;; "))
+	return b.String()
+}
+
+func encode(w *world, ops []op) string {
+	var b strings.Builder
+	set := map[rune]bool{}
+	firstRunes(&world{}, ops, set)
+	b.WriteString("X " + w.key + " " + upperTokens(set))
 	fmt.Fprintf(&b, " O %d", len(ops))
 	for _, o := range ops {
 		o.enc(&b)
 	}
-	b.WriteString(" ## " + strings.Join(w.src(), " ;; "))
-	for _, o := range ops {
-		b.WriteString(" ;; " + strings.Join(o.src(), " ;; "))
+	b.WriteString(" ##")
+	for i, o := range ops {
+		if i > 0 {
+			b.WriteString(" ;;")
+		}
+		b.WriteString(" " + strings.Join(o.src(), " ;; "))
 	}
 	return b.String()
 }
@@ -393,6 +429,7 @@ func tagsFor(ops []op) []string {
 
 // run ops on an existing env (shared world, read-only ops) or on a fresh one
 func runCase(out *lib.Out, w *world, env *zygo.Zlisp, ops []op, extra ...string) {
+	w.declare(out)
 	if env == nil {
 		var berr string
 		env, berr = w.build()
@@ -402,6 +439,10 @@ func runCase(out *lib.Out, w *world, env *zygo.Zlisp, ops []op, extra ...string)
 		}
 	}
 	var obs []string
+	for i := range ops {
+		tmpCounter++
+		ops[i].tmp = fmt.Sprintf("zq%d", tmpCounter)
+	}
 	for _, o := range ops {
 		obs = append(obs, evalOp(env, o))
 	}
@@ -419,14 +460,36 @@ func sysHash() *decl {
 		m("N", dH(m("D", dI(4)), m("e", dI(5)))), m("n", dH(m("D", dI(6)))))
 }
 
-func sysPkg(level, depth int, pname string) *decl {
+func sysPkg(level, depth int, pname string, lean bool) *decl {
 	var ms []member
 	for c := 0; c < 3; c++ {
 		ms = append(ms, m(intN[c], dI(int64(level*100+c+10))))
 	}
 	ms = append(ms, m(fmt.Sprintf("X%d", level), dI(int64(level*100+50))), m(fmt.Sprintf("x%d", level), dI(int64(level*100+51))))
 	for c := 0; c < 3; c++ {
-		ms = append(ms, m(hashN[c], sysHash()))
+		if lean {
+			ms = append(ms, m(hashN[c], dH(m("A", dI(1)), m("b", dI(2)), m("N", dH(m("D", dI(4)), m("e", dI(5)))))))
+		} else {
+			ms = append(ms, m(hashN[c], sysHash()))
+		}
+	}
+	if lean {
+		ms = append(ms,
+			m("GetLo", dF(nil, body{kind: 'G', name: "vi"})),
+			m("getUp", dF(nil, body{kind: 'G', name: "Vi"})),
+			m("GetNl", dF(nil, body{kind: 'G', name: "_vi"})),
+			m("SetLo", dF([]string{"v"}, body{kind: 'S', name: "vi"})),
+			m("setUp", dF([]string{"v"}, body{kind: 'S', name: "Vi"})))
+		if level > 0 {
+			ms = append(ms, m("GetOut", dF(nil, body{kind: 'G', name: fmt.Sprintf("x%d", level-1)})),
+				m("SetOut", dF([]string{"v"}, body{kind: 'S', name: fmt.Sprintf("x%d", level-1)})))
+		}
+		if level < depth-1 {
+			for c := 0; c < 3; c++ {
+				ms = append(ms, m(pkgN[c], sysPkg(level+1, depth, fmt.Sprintf("%s%s", pname, clsName[c]), lean)))
+			}
+		}
+		return dP(pname, ms...)
 	}
 	ms = append(ms,
 		m("GetLo", dF(nil, body{kind: 'G', name: "vi"})),
@@ -446,7 +509,7 @@ func sysPkg(level, depth int, pname string) *decl {
 	}
 	if level < depth-1 {
 		for c := 0; c < 3; c++ {
-			ms = append(ms, m(pkgN[c], sysPkg(level+1, depth, fmt.Sprintf("%s%s", pname, clsName[c]))))
+			ms = append(ms, m(pkgN[c], sysPkg(level+1, depth, fmt.Sprintf("%s%s", pname, clsName[c]), lean)))
 		}
 		ms = append(ms,
 			m("DotLo", dF(nil, body{kind: 'D', path: []string{"pp", "vi"}})),
@@ -457,10 +520,10 @@ func sysPkg(level, depth int, pname string) *decl {
 	return dP(pname, ms...)
 }
 
-func sysWorld(depth int) *world {
+func sysWorld(depth int, lean bool) *world {
 	return &world{defs: []member{
 		m("G9", dI(900)), m("g9", dI(901)),
-		m("root", sysPkg(0, depth, "k")),
+		m("root", sysPkg(0, depth, "k", lean)),
 		m("al", dR("root")),
 		m("al2", dR("root", "pp")),
 		m("hq", dH(m("P", dR("root")), m("p", dR("al2")), m("N", dH(m("P", dR("root")), m("q", dR("al2")), m("M", dH(m("P", dR("root")))))))),
@@ -478,13 +541,13 @@ type target struct {
 }
 
 // all member paths below a package (relative), following nested packages under every name class
-func sysTargets(level, depth int, prefix []string) []target {
+func sysTargets(level, depth int, prefix []string, lean bool) []target {
 	var ts []target
 	add := func(k byte, fn *decl, names ...string) {
 		p := append(append([]string{}, prefix...), names...)
 		ts = append(ts, target{path: p, kind: k, fn: fn, level: level})
 	}
-	pk := sysPkg(level, depth, "k")
+	pk := sysPkg(level, depth, "k", lean)
 	for _, mem := range pk.kvs {
 		switch mem.d.kind {
 		case 'I':
@@ -512,7 +575,7 @@ func sysTargets(level, depth int, prefix []string) []target {
 	}
 	if level < depth-1 {
 		for c := 0; c < 3; c++ {
-			ts = append(ts, sysTargets(level+1, depth, append(append([]string{}, prefix...), pkgN[c]))...)
+			ts = append(ts, sysTargets(level+1, depth, append(append([]string{}, prefix...), pkgN[c]), lean)...)
 		}
 	}
 	return ts
@@ -522,17 +585,21 @@ func withRoot(root []string, p []string) []string {
 	return append(append([]string{}, root...), p...)
 }
 
-func systematic(out *lib.Out, depth int, rng *lib.Rng, setFraction int) {
-	w := sysWorld(depth)
+func systematic(out *lib.Out, depth int, rng *lib.Rng, setFraction int, reads bool, lean bool) {
+	w := sysWorld(depth, lean)
 	env, berr := w.build()
 	if berr != "" {
+		w.declare(out)
 		out.Case(encode(w, nil), berr, false, "build-error")
 		return
 	}
-	ts := sysTargets(0, depth, nil)
+	ts := sysTargets(0, depth, nil, lean)
 	roots := [][]string{{"root"}, {"al"}, {"hq", "P"}, {"hq", "N", "P"}, {"hq", "N", "M", "P"}}
 	// reads and getter calls share one interpreter (they do not change the world)
 	for ri, root := range roots {
+		if !reads {
+			break
+		}
 		for _, t := range ts {
 			if ri >= 2 && t.level > 0 && rng.Intn(4) != 0 {
 				continue
@@ -553,9 +620,9 @@ func systematic(out *lib.Out, depth int, rng *lib.Rng, setFraction int) {
 		}
 	}
 	// al2 (alias of a nested package reached through a dot path) and packages held by hashes
-	for _, t := range sysTargets(1, depth, nil) {
+	for _, t := range sysTargets(1, depth, nil, lean) {
 		for _, root := range [][]string{{"al2"}, {"hq", "p"}, {"hq", "N", "q"}} {
-			if t.level > 1 && rng.Intn(3) != 0 {
+			if !reads || (t.level > 1 && rng.Intn(3) != 0) {
 				continue
 			}
 			p := withRoot(root, t.path)
@@ -566,6 +633,9 @@ func systematic(out *lib.Out, depth int, rng *lib.Rng, setFraction int) {
 	// assignments and setter calls: fresh interpreter each, followed by reads from inside and outside
 	k := 0
 	for ri, root := range roots[:4] {
+		if setFraction <= 0 {
+			break
+		}
 		for _, t := range ts {
 			k++
 			if setFraction > 1 && (k+ri)%setFraction != 0 {
@@ -814,6 +884,11 @@ func randomWorlds(out *lib.Out, rng *lib.Rng, n, maxDepth int) {
 
 func main() {
 	a := lib.ParseArgs()
+	if pf := os.Getenv("C18_PROF"); pf != "" {
+		f, _ := os.Create(pf)
+		pprof.StartCPUProfile(f)
+		defer pprof.StopCPUProfile()
+	}
 	out := lib.NewOut(a.Out)
 	out.Rule = "systematic world: full tree of packages nested to the depth bound under upper/lower/non-letter names, each with int, hash (nested hashes), function (getter/setter/dot-path bodies) and package members of every first-rune class, aliases (plain, through a dot path, held by hashes at depth 1..3); every member path x every read route, every function called, assignments (infix, prefix =, set) on a fresh interpreter followed by reads from inside and outside; then random worlds (names incl. non-ASCII upper/lower/title-case/non-letter) with random op sequences; a case is one op sequence on one world, distinct = distinct encoded (world, ops)"
 	rng := lib.NewRng(a.Seed)
@@ -822,12 +897,21 @@ func main() {
 		out.Close(a.Stats)
 		return
 	}
-	depth, nrand, frac := 3, 1500, 2
+	depth, nrand, frac, frac2 := 3, 1000, 20, 2
 	if a.Tier == "thorough" {
-		depth, nrand, frac = 4, 20000, 1
+		depth, nrand, frac, frac2 = 4, 20000, 2, 1
 	}
-	systematic(out, depth, rng, frac)
+	t0 := time.Now()
+	// every member path x every read route, every call: one interpreter, full world
+	systematic(out, depth, rng, 0, true, false)
+	fmt.Fprintln(os.Stderr, "systematic reads", depth, time.Since(t0))
+	// assignments need a fresh interpreter per case: lean worlds (building a world costs the
+	// interpreter time quadratic in its size: every closure creation renders the scope stack)
+	systematic(out, depth-1, rng, frac2, false, true)
+	systematic(out, depth, rng, frac, false, true)
+	fmt.Fprintln(os.Stderr, "systematic sets", time.Since(t0))
 	randomWorlds(out, rng, nrand, depth)
+	fmt.Fprintln(os.Stderr, "random", time.Since(t0))
 	out.Extra["nesting_depth"] = depth
 	out.Extra["random_worlds"] = nrand
 	out.Close(a.Stats)
@@ -841,16 +925,12 @@ func replay(out *lib.Out, path string) {
 		os.Exit(2)
 	}
 	txt := string(data)
-	// accept the replay json written by checks/c18.py: take the "source" field
-	if i := strings.Index(txt, "\"source\": \""); i >= 0 {
-		rest := txt[i+len("\"source\": \""):]
-		if j := strings.Index(rest, "\",\n"); j >= 0 {
-			rest = rest[:j]
-		} else if j := strings.LastIndex(rest, "\""); j >= 0 {
-			rest = rest[:j]
+	// the replay json written by checks/c18.py carries the texts in its "source" field
+	var obj map[string]interface{}
+	if json.Unmarshal(data, &obj) == nil {
+		if src, ok := obj["source"].(string); ok {
+			txt = src
 		}
-		txt = strings.ReplaceAll(strings.ReplaceAll(rest, `\"`, `"`), `\\`, `\`)
-		// non-ASCII is written literally (ensure_ascii=False)
 	}
 	env := zygo.NewZlisp()
 	env.StandardSetup()
